@@ -163,6 +163,7 @@ func init() {
 		ruleShapeFaults(shapeConfig{label: "tilecover", keep: inPkgs("maptile/tilecover."), floor: 8}),
 		ruleLoopShapes(inPkgs("maptile/tilecover."), 1, 3),
 		ruleDispatchDelegation([]string{"maptile/tilecover"}, 6),
+		ruleCompose(coverMemberSpecs, 10),
 	)
 
 	register("C18",
